@@ -126,6 +126,7 @@ func argDomain(t reflect.Type, variadic bool, method string, wild bool) []argVal
 	case t == tagMapType:
 		return []argVal{
 			{"nil", func(*int) reflect.Value { return reflect.ValueOf(map[string]string(nil)) }},
+			{"{}", func(*int) reflect.Value { return reflect.ValueOf(map[string]string{}) }},
 			{`{"a":"1"}`, func(*int) reflect.Value { return reflect.ValueOf(map[string]string{"a": "1"}) }},
 			{`{"a":"1","b":"2"}`, func(*int) reflect.Value { return reflect.ValueOf(map[string]string{"a": "1", "b": "2"}) }},
 		}
@@ -442,6 +443,100 @@ func c14One(c c14Construct, combo []int) (problems []string, evals int) {
 	return
 }
 
+// lateMutate changes, in place, every argument a construct may have kept by reference: a token is
+// appended to every *Statement (bare or as an item of a ...Code list; a Null() item becomes a real
+// one), and a key is added to every non-nil tag map. It reports whether anything was changed.
+// mode 1 changes without changing any size: the values of every tag map are replaced (statements
+// are left alone: taking a token away could remove a qualified reference, and a File rightly keeps
+// declaring an import it has shown once).
+func lateMutate(args []reflect.Value, mode int) bool {
+	changed := false
+	stmt := func(v any) {
+		if st, ok := v.(*jen.Statement); ok && st != nil {
+			if mode == 1 {
+				return
+			}
+			st.Id("late")
+			changed = true
+		}
+	}
+	for _, a := range args {
+		switch {
+		case a.Kind() == reflect.Slice && a.Type().Elem() == codeType:
+			for i := 0; i < a.Len(); i++ {
+				stmt(a.Index(i).Interface())
+			}
+		case a.Type() == tagMapType:
+			if mode == 1 {
+				for _, k := range a.MapKeys() {
+					a.SetMapIndex(k, reflect.ValueOf("replaced"))
+					changed = true
+				}
+			} else if !a.IsNil() {
+				a.SetMapIndex(reflect.ValueOf("late"), reflect.ValueOf("x"))
+				changed = true
+			}
+		case a.Type() == codeType || a.Type() == stmtType:
+			stmt(a.Interface())
+		}
+	}
+	return changed
+}
+
+// c14LateArgs: the arguments are changed after the constructing call (lateMutate); the function
+// form, the method form and the Group form must then still render alike - whether a construct
+// keeps its arguments by reference or copies them, all its forms do the same.
+func c14LateArgs(c c14Construct, combo []int) string {
+	for mode := 0; mode < 2; mode++ {
+		if msg := c14LateArgsMode(c, combo, mode); msg != "" {
+			return msg
+		}
+	}
+	return ""
+}
+
+func c14LateArgsMode(c c14Construct, combo []int, mode int) string {
+	fn, ok := apiFuncs[c.name]
+	if !ok {
+		return ""
+	}
+	if _, ok := groupType.MethodByName(c.name); !ok {
+		return ""
+	}
+	var outs [3]string
+	for form := 0; form < 3; form++ {
+		args := c.args(combo, new(int))
+		var st *jen.Statement
+		var p any
+		switch form {
+		case 0:
+			var rv reflect.Value
+			rv, p = call(reflect.ValueOf(fn), args, c.isVar)
+			if p == nil {
+				st, _ = rv.Interface().(*jen.Statement)
+			}
+		case 1:
+			st = &jen.Statement{}
+			_, p = call(reflect.ValueOf(st).MethodByName(c.name), args, c.isVar)
+		case 2:
+			st = jen.CustomFunc(jen.Options{}, func(g *jen.Group) {
+				_, p = call(reflect.ValueOf(g).MethodByName(c.name), args, c.isVar)
+			})
+		}
+		if p != nil || st == nil {
+			return ""
+		}
+		if !lateMutate(args, mode) {
+			return ""
+		}
+		outs[form] = jh.Raw(st).Key()
+	}
+	if outs[0] != outs[1] || outs[1] != outs[2] {
+		return fmt.Sprintf("after the arguments were changed following the call: function form %q, method form %q, Group form %q", outs[0], outs[1], outs[2])
+	}
+	return ""
+}
+
 // c14FuncVariant: XFunc(callback adding the items) == X(items...).
 func c14FuncVariants(r *ev.Recorder) {
 	for i := 0; i < stmtType.NumMethod(); i++ {
@@ -732,7 +827,7 @@ func runC14(r *ev.Recorder) {
 		"(strings, Code, ...Code lists of 0-3 items incl. Null() and two paths with the same guessed alias, callbacks, tag maps, Options, literals). For each: package function (from the generated list of the tree's exported functions), "+
 		"method on a fresh and on a non-empty *Statement, *Group method (appends exactly one item, identical to the returned statement; appending to the result never changes an argument), "+
 		"raw renderings byte-equal across forms; GoString / Render / RenderWithFile(fresh File) agree; ...Func variants equal their variadic form; every callback counter == 1 when the constructing call returns and unchanged after three renders. "+
-		"Re-entrant callbacks: a callback that also appends to the receiver / enclosing group, or panics and is recovered, leaves the same statement behind in the method and the function form; a tag map filled after Tag(m) was called shows alike in all three forms. Runs on a single goroutine, in one process, so that hidden state shared by stand-alone renders would show. distinct_nontrivial = distinct (construct, argument combination) cases", len(cs), names)
+		"Late arguments: every *Statement argument gets a token appended and every tag map a key added after the constructing call - the three forms must still render alike. Re-entrant callbacks: a callback that also appends to the receiver / enclosing group, or panics and is recovered, leaves the same statement behind in the method and the function form; a tag map filled after Tag(m) was called shows alike in all three forms. Runs on a single goroutine, in one process, so that hidden state shared by stand-alone renders would show. distinct_nontrivial = distinct (construct, argument combination) cases", len(cs), names)
 	r.Assume = []string{"argument values outside the tiny domains are outside the bound", "DictFunc returns a Dict, not a statement: its callback count is checked separately"}
 	if len(missing) > 0 {
 		r.Note("constructs_without_synthesised_arguments", missing)
@@ -743,6 +838,10 @@ func runC14(r *ev.Recorder) {
 	for _, c := range cs {
 		for _, combo := range combos(c.domains) {
 			probs, evals := c14One(c, combo)
+			if msg := c14LateArgs(c, combo); msg != "" {
+				probs = append(probs, c.describe(combo)+": "+msg)
+			}
+			evals += 3
 			r.Eval(int64(evals))
 			desc := c.describe(combo)
 			r.Distinct(desc)
